@@ -8,6 +8,10 @@
 //! Decides: verification succeeds (and derives the claimed id, equal to the signer's) iff the
 //! spec says the presentation is unchanged.
 use aranya_crypto::{
+    dangerous::spideroak_crypto::{
+        hash::Hash as _,
+        rust::{Sha256, Sha512},
+    },
     default::{DefaultCipherSuite as CS, DefaultEngine},
     keystore::memstore::MemStore,
     policy::CmdId,
@@ -73,7 +77,10 @@ pub fn run(args: &Args) {
         let cell = ops::parse(b);
         match vrt::catch_any(|| one(args.seed, i, &cell, inst)) {
             Ok(v) => out.emit(v),
-            Err(p) => out.fail(i, -1, "C34:panic", &format!("sign/verify panicked: {p}"), json!({"ops": b.get("ops")})),
+            Err(p) => {
+                let key = if p.starts_with("HONEST-FAIL") { "C34:honest-operation-failed" } else { "C34:panic" };
+                out.fail(i, -1, key, &format!("sign/verify panicked: {p}"), json!({"ops": b.get("ops")}))
+            }
         }
     }
     out.finish();
@@ -100,11 +107,13 @@ fn one(seed: u64, i: usize, cell: &Cell, inst: u64) -> Value {
         // shifted name is still a valid identifier / UTF-8 string
         let o_name = ops::random_alpha(&mut rng, 2 * w);
         let o_parent = ops::random_alpha(&mut rng, 32);
-        let o_data = ops::random_alpha(&mut rng, 2 * w);
+        // data length class: 0 = two units of w bytes, else exactly that many bytes (lengths
+        // straddling size thresholds of the implementation)
+        let o_data = ops::random_alpha(&mut rng, if cell.plen == 0 { 2 * w } else { cell.plen });
         let parent_id = CmdId::from_bytes(o_parent.clone().try_into().unwrap());
         let (sig, signer_id) = sk
             .sign_cmd(Cmd { data: &o_data, name: std::str::from_utf8(&o_name).unwrap(), parent_id: &parent_id })
-            .unwrap_or_else(|e| vrt::die(&format!("sign_cmd: {e}")));
+            .unwrap_or_else(|e| panic!("HONEST-FAIL sign_cmd: {e}"));
         let mut a_sig: Vec<u8> = std::borrow::Borrow::<[u8]>::borrow(&sig.to_bytes()).to_vec();
         let mut a_id: Vec<u8> = signer_id.as_bytes().to_vec();
         let (o_sig, o_id) = (a_sig.clone(), a_id.clone());
@@ -129,12 +138,21 @@ fn one(seed: u64, i: usize, cell: &Cell, inst: u64) -> Value {
                     }
                 }
                 ("replace", "parent") => {
-                    p.parent = loop {
-                        let n = ops::random_alpha(&mut rng, 32);
-                        if n != o_parent {
-                            break n;
+                    let o: [u8; 32] = o_parent.clone().try_into().unwrap();
+                    p.parent = if *b == 1 {
+                        loop {
+                            let n = ops::random_alpha(&mut rng, 32);
+                            if n != o_parent {
+                                break n;
+                            }
                         }
-                    }
+                    } else {
+                        // near miss; keep it alphabetic so that shifted names stay valid text
+                        let mut n = ops::near(&o, *b, &mut rng).to_vec();
+                        let i = if *b == 2 { 31 } else { 0 };
+                        n[i] = if o[i] == b'a' { b'b' } else { b'a' };
+                        n
+                    };
                 }
                 ("replace", "data") => {
                     if *b == 1 {
@@ -146,8 +164,16 @@ fn one(seed: u64, i: usize, cell: &Cell, inst: u64) -> Value {
                             }
                         }
                     } else {
-                        p.data = o_data.clone();
-                        p.data.pop();
+                        // values related to the signed data
+                        p.data = match *b {
+                            2 => o_data[..o_data.len() - 1].to_vec(),
+                            3 => Sha256::hash(&o_data).as_bytes().to_vec(),
+                            4 => Sha512::hash(&o_data).as_bytes().to_vec(),
+                            _ => o_data[..o_data.len().min(32)].to_vec(),
+                        };
+                        if p.data == o_data {
+                            applicable = false; // (data not longer than 32 bytes: prefix = data)
+                        }
                     }
                 }
                 ("move", m) => {
